@@ -160,42 +160,71 @@ def _exact_radicand(node, lt=None):
         return False, 'loader not a function'
     if body is None:
         return False, 'loader not a function'
-    defs = {}
+    defs, helpers = {}, {}
     for st in body:
         for x in ast.walk(st):
             if isinstance(x, ast.Assign) and len(x.targets) == 1 and isinstance(x.targets[0], ast.Name):
-                defs[x.targets[0].id] = x.value
+                if isinstance(x.value, ast.Lambda):
+                    helpers[x.targets[0].id] = ([a.arg for a in x.value.args.args], x.value.body)
+                else:
+                    defs[x.targets[0].id] = x.value
+            if isinstance(x, ast.FunctionDef) and x is not node:
+                rs = [r for r in ast.walk(x) if isinstance(r, ast.Return)]
+                inner = [b for b in x.body if not (isinstance(b, ast.Expr) and isinstance(b.value, ast.Constant))]
+                if len(rs) == 1 and len(inner) == 1 and inner[0] is rs[0]:
+                    helpers[x.name] = ([a.arg for a in x.args.args], rs[0].value)
     sq = [c for st in body for c in ast.walk(st) if isinstance(c, ast.Call) and dotted(c.func) in ('np.sqrt', 'math.sqrt') and c.args]
     if len(sq) != 1:
         return False, f'{len(sq)} square roots in the loader'
     e = sq[0].args[0]
-    while isinstance(e, ast.Name) and e.id in defs:
-        e = defs[e.id]
-    leaves = []
+    INT64 = ('np.int64', 'int', "'i8'", "'int64'", 'np.int_', 'np.longlong')
+    why = []
 
-    def flat(x):
-        if isinstance(x, ast.BinOp) and isinstance(x.op, (ast.Add, ast.Sub)):
-            flat(x.left)
-            flat(x.right)
-        else:
-            leaves.append(x)
-    flat(e)
-
-    def int_valued(x):
-        if isinstance(x, ast.Constant) and isinstance(x.value, int):
-            return True
-        if isinstance(x, ast.Call) and dotted(x.func) in ('int', 'np.int64') and len(x.args) == 1:
-            return True
-        if isinstance(x, ast.BinOp) and isinstance(x.op, (ast.Pow, ast.Mult)):
-            return int_valued(x.left) and int_valued(x.right)
-        if isinstance(x, ast.Name) and x.id in defs:
-            d = defs[x.id]
-            t = unparse(d)
-            return ('_i16' in t) and ('np.int64' in t or "dtype='i8'" in t or 'dtype=int' in t)
-        return False
-    bad = [unparse(x)[:50] for x in leaves if not int_valued(x)]
-    if bad:
-        return False, f'the radicand {unparse(e)[:90]} is a difference of floating-point terms ({bad[0]})'
+    def kind(x, env, depth=0):
+        """'i64': an exact 64-bit (or Python) integer value; anything else is not exact.  A raw `_i16` column itself is 'narrow':
+        its square wraps in int16."""
+        if depth > 12:
+            return 'unknown'
+        if isinstance(x, ast.Constant):
+            return 'i64' if isinstance(x.value, int) and not isinstance(x.value, bool) else 'float'
+        if isinstance(x, ast.Call) and dotted(x.func) in ('int', 'np.int64') and len(x.args) == 1 and not x.keywords:
+            return 'i64'
+        if isinstance(x, ast.Call) and dotted(x.func) in ('np.asarray', 'np.array', 'np.asanyarray') and len(x.args) == 1 \
+                and [unparse(k.value) for k in x.keywords if k.arg == 'dtype'] and unparse([k.value for k in x.keywords if k.arg == 'dtype'][0]) in INT64:
+            return 'i64'
+        if isinstance(x, ast.Call) and isinstance(x.func, ast.Attribute) and x.func.attr == 'astype' and len(x.args) == 1 and unparse(x.args[0]) in INT64:
+            return 'i64'
+        if isinstance(x, ast.Call) and isinstance(x.func, ast.Name) and x.func.id in helpers and not x.keywords:
+            ps, b = helpers[x.func.id]
+            if len(ps) == len(x.args):
+                return kind(b, dict(env, **{p_: ('val', a, env) for p_, a in zip(ps, x.args)}), depth + 1)
+            return 'unknown'
+        if isinstance(x, ast.UnaryOp) and isinstance(x.op, (ast.USub, ast.UAdd)):
+            return kind(x.operand, env, depth + 1)
+        if isinstance(x, ast.BinOp) and isinstance(x.op, (ast.Add, ast.Sub, ast.Mult, ast.Pow)):
+            a, b = kind(x.left, env, depth + 1), kind(x.right, env, depth + 1)
+            if a == b == 'i64':
+                if isinstance(x.op, ast.Pow) and not (isinstance(x.right, ast.Constant) and isinstance(x.right.value, int) and x.right.value >= 0):
+                    return 'unknown'
+                return 'i64'
+            why.append(unparse(x.left if a != 'i64' else x.right)[:50])
+            return 'float' if 'float' in (a, b) else 'unknown'
+        if isinstance(x, ast.Name):
+            if x.id in env:
+                _, a, env2 = env[x.id]
+                return kind(a, env2, depth + 1)
+            if x.id in defs:
+                return kind(defs[x.id], {}, depth + 1)
+            return 'unknown'
+        if isinstance(x, ast.Subscript):
+            return 'narrow'
+        return 'unknown'
+    k = kind(e, {})
+    if k != 'i64':
+        r = e
+        while isinstance(r, ast.Name) and r.id in defs:
+            r = defs[r.id]
+        return False, f'the radicand {unparse(r)[:90]} is a difference of floating-point terms ({why[0] if why else unparse(r)[:50]})'
     return True, ''
 
 
